@@ -146,14 +146,7 @@ static inline FlexPath* gen_simple_path(Rng& g, const GenOpts& o) {
 
 static inline Label* gen_label(Rng& g, const GenOpts& o) {
     Label* l = (Label*)allocate_clear(sizeof(Label));
-    if (g.below(300) == 0) {
-        // a text that fills a record: 65527 .. 65529 bytes give STRING records of 65532 and 65534 bytes, the largest an even-length
-        // record can be (the readers' buffer holds 65537)
-        std::string big((size_t)(65527 + g.below(3)), 'x');
-        for (size_t i = 0; i < big.size(); i += 97) big[i] = (char)('A' + (i / 97) % 26);
-        l->init(big.c_str());
-    } else
-        l->init(rand_name(g, 12).c_str());
+    l->init(rand_name(g, 12).c_str());
     l->tag = make_tag((uint32_t)g.below(60), (uint32_t)g.below(60));
     l->origin = Vec2{((double)g.range(-o.coord_range, o.coord_range) + qfrac(g, o)) * o.grid, ((double)g.range(-o.coord_range, o.coord_range) + qfrac(g, o)) * o.grid};
     static const Anchor as[] = {Anchor::NW, Anchor::N, Anchor::NE, Anchor::W, Anchor::O, Anchor::E, Anchor::SW, Anchor::S, Anchor::SE};
